@@ -575,7 +575,19 @@ pub fn case_strategy() -> impl Strategy<Value = Case> {
         2 => Just(Phase::AfterAttachOfTarget),
     ];
     (
-        proptest::collection::vec(prop_oneof![5 => Just(K_SLEEPER), 2 => Just(K_PARKED), 1 => Just(K_SPINNER), 2 => Just(K_EXITER)], 1..13),
+        proptest::collection::vec(prop_oneof![5 => Just(K_SLEEPER), 2 => Just(K_PARKED), 1 => Just(K_SPINNER), 2 => Just(K_EXITER), 1 => Just(K_NULLSP)], 1..13).prop_map(|mut v| {
+            // at most one null-SP burner per target
+            let mut seen = false;
+            for k in v.iter_mut() {
+                if *k == K_NULLSP {
+                    if seen {
+                        *k = K_PARKED;
+                    }
+                    seen = true;
+                }
+            }
+            v
+        }),
         proptest::collection::vec((phase, any::<u16>(), 0u8..8, 0u8..5).prop_map(|(phase, thread, slot, count)| Sig { phase, thread, slot, count }), 0..10),
         proptest::bool::weighted(0.4),
         proptest::collection::vec(0u8..32, 0..4),
@@ -606,7 +618,7 @@ pub fn run(ctx: &mut LaneCtx) {
         SubSpec {
             name: "faults-and-signals",
             cases: (64, 2_000),
-            rule: "per generated scenario (1..12 sleeper/parked/spinner/exiter threads, signal schedule of up to 9 entries over 7 phase points (with extra weight on the attach of the signalled thread itself) x thread x {SIGUSR1,SIGHUP,SIGTRAP,SIGURG,SIGRTMIN+0..3} x count 1..5, StopProcess fail point on/off, exiters cued at the threads-enumerated hook): one fault-free dump with the schedule, then EVERY destination call failing as I/O error and as panic (exhaustive per scenario), sampled fail-point subsets and two natural hard errors; after each of them the liveness predicate, after the first the signal accounting; every scenario is non-trivial; distinct = hash of scenario",
+            rule: "per generated scenario (1..12 sleeper/parked/spinner/exiter threads and at most one sandbox-style helper thread running with a null stack pointer, signal schedule of up to 9 entries over 7 phase points (with extra weight on the attach of the signalled thread itself) x thread x {SIGUSR1,SIGHUP,SIGTRAP,SIGURG,SIGRTMIN+0..3} x count 1..5, StopProcess fail point on/off, exiters cued at the threads-enumerated hook): one fault-free dump with the schedule, then EVERY destination call failing as I/O error and as panic (exhaustive per scenario), sampled fail-point subsets and two natural hard errors; after each of them the liveness predicate, after the first the signal accounting; every scenario is non-trivial; distinct = hash of scenario",
             strategy: case_strategy().boxed(),
             max_shrink_iters: 40,
             log_current: true,
